@@ -352,6 +352,9 @@ class PyFlow:
                 return [p]
             out = []
             for q, v in self.ev(st.value, p, depth):
+                if q.done in ("raise", "exit"):
+                    out.append(q)  # evaluating the value raised / ended the process (inside an inlined callee)
+                    continue
                 q.done, q.ret, q.ret_node = "return", v, st
                 out.append(q)
             return out
@@ -397,6 +400,50 @@ class PyFlow:
             for q, t in self.cond(st.test, p, depth):
                 out.extend(self.block(st.body if t else st.orelse, [q], depth))
             return out
+        if isinstance(st, ast.With) and len(st.items) == 1 and isinstance(st.items[0].context_expr, ast.Call) and depth < self.max_depth:
+            # `with self.cm(args): BODY` over a @contextmanager generator: its body with `yield` replaced by BODY
+            it0 = st.items[0]
+            tgt0 = self.resolve(it0.context_expr, p)
+            if tgt0 is not None:
+                fn0, bound0 = tgt0
+                yields = [n_ for n_ in ast.walk(fn0) if isinstance(n_, (ast.Yield, ast.YieldFrom))]
+                ystm = [n_ for n_ in ast.walk(fn0) if isinstance(n_, ast.Expr) and isinstance(n_.value, ast.Yield)]
+                if any("contextmanager" in src_of(d_) for d_ in fn0.decorator_list) and len(yields) == 1 and len(ystm) == 1 and not it0.context_expr.keywords:
+                    import copy as _copy
+
+                    def splice_(stmts: List[ast.stmt]) -> List[ast.stmt]:
+                        out_s: List[ast.stmt] = []
+                        for s_ in stmts:
+                            if s_ is ystm[0]:
+                                if it0.optional_vars is not None and ystm[0].value.value is not None:
+                                    out_s.append(ast.copy_location(ast.Assign(targets=[it0.optional_vars], value=ystm[0].value.value, lineno=st.lineno), st))
+                                out_s.extend(st.body)
+                                continue
+                            if any(x is ystm[0] for x in ast.walk(s_)):
+                                s2 = _copy.copy(s_)
+                                for fld in ("body", "orelse", "finalbody"):
+                                    sub_ = getattr(s_, fld, None)
+                                    if isinstance(sub_, list) and sub_ and isinstance(sub_[0], ast.stmt):
+                                        setattr(s2, fld, splice_(sub_))
+                                out_s.append(s2)
+                            else:
+                                out_s.append(s_)
+                        return out_s
+
+                    body0 = [b_ for b_ in fn0.body if not (isinstance(b_, ast.Expr) and isinstance(b_.value, ast.Constant))]
+                    new_body = splice_(body0)
+                    outw: List[Path] = []
+                    for q, args0 in self._bind_args(fn0, it0.context_expr, p, depth, bound0):
+                        clobbered = {k_: q.env.get(k_) for k_ in args0}
+                        q.env.update(args0)
+                        for r_ in self.block(new_body, [q], depth + 1):
+                            for k_, v_ in clobbered.items():
+                                if v_ is None:
+                                    r_.env.pop(k_, None)
+                                else:
+                                    r_.env[k_] = v_
+                            outw.append(r_)
+                    return outw
         if isinstance(st, ast.With):
             paths = [p]
             names = []
@@ -503,6 +550,27 @@ class PyFlow:
                         s_.done = None
                 out.extend(state)
                 continue
+            # a while loop whose test is decided outright at every iteration (a descent through a type
+            # chain under a scenario that fixes the classes) is executed iteration by iteration
+            if isinstance(st, ast.While) and not st.orelse and self.decide is not None:
+                s_ = q.clone()
+                done_ = None
+                for _it in range(8):
+                    n_guards = len(s_.guards)
+                    cs = self.cond(st.test, s_, depth)
+                    if len(cs) != 1 or len(cs[0][0].guards) != n_guards + 0 and not self._decided_tail(cs[0][0], n_guards):
+                        break
+                    s2, t_ = cs[0]
+                    if not t_:
+                        done_ = s2
+                        break
+                    bp_ = self.block(st.body, [s2], depth)
+                    if len(bp_) != 1 or bp_[0].done is not None:
+                        break
+                    s_ = bp_[0]
+                if done_ is not None:
+                    out.append(done_)
+                    continue
             # variables assigned in the body are unknown inside and after the loop
             assigned = self._assigned_names(st.body)
             saved_vals = {n: q.env.get(n) for n in assigned}
@@ -571,6 +639,16 @@ class PyFlow:
             else:
                 out.append(q)
         return out
+
+    def _decided_tail(self, p: Path, n: int) -> bool:
+        """every literal the path gained since index n is one the decide hook settles by itself"""
+        if self.decide is None:
+            return False
+        for k, t in p.guards[n:]:
+            d = self.decide(k)
+            if d is None or d != t:
+                return False
+        return True
 
     def _rows(self, it: Poly) -> Optional[List[Poly]]:
         """Elements of a literal tuple / range(const) iterable."""
@@ -1428,6 +1506,17 @@ class PyFlow:
         if alias_name is None and isinstance(f, ast.Name) and f.id in p.env and f.id not in self.funcs and f.id not in p.funcs:
             # the function / class called is itself a computed value (class_ = pick(...); class_(...))
             callee_val = p.env[f.id]
+        if alias_name is not None and alias_recv is not None and depth < self.max_depth:
+            # a bound method of a known receiver held in a local: the call is that method call
+            ra_ = single_atom(alias_recv)
+            if ra_ is not None and ra_[0] == "var" and (ra_[1] in self.self_names or ra_[1] in self.typed):
+                base_: ast.expr = ast.Name(id=ra_[1].split(".")[0], ctx=ast.Load())
+                for part_ in ra_[1].split(".")[1:]:
+                    base_ = ast.Attribute(value=base_, attr=part_, ctx=ast.Load())
+                syn = ast.copy_location(ast.Call(func=ast.Attribute(value=base_, attr=alias_name, ctx=ast.Load()), args=e.args, keywords=e.keywords), e)
+                ast.fix_missing_locations(syn)
+                if self.resolve(syn, p) is not None:
+                    return self.call(syn, p, depth, stmt_pos, no_effect)
         if alias_name is not None:
             recv_paths = [(p, alias_recv)]
         for q, recv in recv_paths:
@@ -1466,6 +1555,29 @@ class PyFlow:
                         q2.done = "exit"
                 out.append((q2, val))
         return out
+
+
+def bind_call_atom(a: Tuple[Any, ...], params: Sequence[str]) -> Optional[Dict[str, Poly]]:
+    """Arguments of a call / mcall atom by parameter name (positional and
+    keyword arguments alike); `params` excludes the receiver.  None when the
+    atom passes something that cannot be matched."""
+    if a[0] not in ("call", "mcall"):
+        return None
+    args = list(a[2][1:]) if a[0] == "mcall" else list(a[2])
+    out: Dict[str, Poly] = {}
+    pos = 0
+    for x in args:
+        xa = single_atom(x) if isinstance(x, Poly) else None
+        if xa is not None and xa[0] == "kw":
+            if xa[1] not in params or xa[1] in out:
+                return None
+            out[xa[1]] = xa[2]
+        else:
+            if pos >= len(params) or params[pos] in out:
+                return None
+            out[params[pos]] = x
+            pos += 1
+    return out
 
 
 def rename_prefix(p: Poly, old: str, new: str) -> Poly:
